@@ -39,8 +39,26 @@ theorem C17_world_covers_shared_state :
        ("ThermalScatteringLaw", "_parser", "ThermalParser"), ("ReadInput", "_parser", "ReadParser"),
        ("MCNP_Parser", "log", "SLY_Supressor"), ("Surface", "_parser", "SurfaceParser")] ∧
     (Setters.decls.filter (fun d => d.kind = .selfType)).map (fun d => (d.cls, d.prop)) =
-      [("HalfSpace", "left"), ("HalfSpace", "right"), ("Surface", "periodic_surface")] := by
-  refine ⟨rfl, rfl, rfl, ?_⟩
+      [("HalfSpace", "left"), ("HalfSpace", "right"), ("Surface", "periodic_surface")] ∧
+    -- every statement in a function body of montepy/ that writes class-level or module-level state at run time
+    -- (`Class.x = …`, `cls.x = …`, `type(self).x = …`, `del Class.x`, setattr/delattr on a class or module,
+    -- `module.x = …`, assignments under `global`/`nonlocal`, item stores and mutating calls on class attributes or
+    -- module-level containers) is one of these: the read-card queue (modelled), the two import-time loops that
+    -- install generated properties (Importance.<particle>, Surfaces.<type>), and six per-call closures of local
+    -- helper functions (not process-wide).  A runtime write to e.g. `DataInput._parser` re-opens this obligation.
+    Setters.runtimeSharedWrites =
+      [("montepy/data_inputs/importance.py", "setattr", "Importance"),
+       ("montepy/input_parser/input_syntax_reader.py", "global-rebind", "reading_queue"),
+       ("montepy/input_parser/input_syntax_reader.py", "mutating-call", "reading_queue.append"),
+       ("montepy/input_parser/input_syntax_reader.py", "mutating-call", "reading_queue.popleft"),
+       ("montepy/input_parser/input_syntax_reader.py", "nonlocal-rebind", "block_counter"),
+       ("montepy/input_parser/input_syntax_reader.py", "nonlocal-rebind", "block_type"),
+       ("montepy/input_parser/input_syntax_reader.py", "nonlocal-rebind", "input_raw_lines"),
+       ("montepy/input_parser/syntax_node.py", "nonlocal-rebind", "shortcut"),
+       ("montepy/mcnp_object.py", "nonlocal-rebind", "jump_counter"),
+       ("montepy/mcnp_object.py", "nonlocal-rebind", "repeat_counter"),
+       ("montepy/surface_collection.py", "setattr", "Surfaces")] := by
+  refine ⟨rfl, rfl, rfl, ?_, rfl⟩
   decide
 
 /-! ## C17_queue — every read starts with an empty queue -/
